@@ -422,7 +422,7 @@ Qed.
 Lemma dec_inj a b : dec a = dec b -> a = b.
 Proof. intro H. rewrite <- (dval_dec a), <- (dval_dec b), H. reflexivity. Qed.
 
-(* ------------------------------------------------------------------ uniq_loop has enough fuel *)
+(* ------------------------------------------------------------------ h_uniq_loop has enough fuel *)
 Definition cand (id : bytes) (k : N) : bytes := if (k =? 0)%N then id else id ++ [x2d] ++ dec k.
 
 Lemma cand_inj id j k : cand id j = cand id k -> j = k.
@@ -435,11 +435,11 @@ Proof.
 Qed.
 
 Lemma uniq_loop_cases iss id : forall f k,
-  (exists a, uniq_loop f iss id k = Ok a) \/
+  (exists a, h_uniq_loop f iss id k = Ok a) \/
   (forall j, j < f -> In (cand id (k + N.of_nat j)) iss).
 Proof.
   induction f as [|f IH]; intro k; [right; intros; lia|].
-  cbn [uniq_loop]. fold (cand id k).
+  cbn [h_uniq_loop]. fold (cand id k).
   destruct (existsb (bytes_eqb (cand id k)) iss) eqn:E.
   - destruct (IH (k + 1)%N) as [H|H]; [left; exact H|right].
     intros [|j] Hj.
@@ -449,7 +449,7 @@ Proof.
   - left. eexists. reflexivity.
 Qed.
 
-Lemma uniq_loop_total iss id : exists a, uniq_loop (S (List.length iss)) iss id 0%N = Ok a.
+Lemma uniq_loop_total iss id : exists a, h_uniq_loop (S (List.length iss)) iss id 0%N = Ok a.
 Proof.
   destruct (uniq_loop_cases iss id (S (List.length iss)) 0%N) as [H|H]; [exact H|exfalso].
   set (l := map (fun j => cand id (N.of_nat j)) (seq 0 (S (List.length iss)))).
@@ -511,7 +511,7 @@ Section T.
       destruct (tagfilter_block_total lit) as [f ->]. cbn [bind]. eexists; reflexivity.
     - (* Heading *)
       destruct (o_header_ids o); [|eexists; reflexivity].
-      unfold anchorize.
+      unfold h_anchorize.
       destruct (uniq_loop_total (issued st) (slug (collect_text (Node (Heading level setext) sp ch)))) as [a ->].
       cbn [bind]. eexists; reflexivity.
     - (* TableCell *)
